@@ -454,7 +454,8 @@ def build_with_history(ctx, spec, mode, hseed, kw=None, prefer=None):
             ctx.count("history", mode)
             return spec, so
     rerail = mode == "solve_then_rerail"
-    if rerail:
+    rekind = mode == "solve_then_rekind"
+    if rerail or rekind:
         mode = "solve_then_retune"
     if mode == "solve_then_retune":
         # the system is first built with other THERMAL resistances / loss flags (same electrical operating point),
@@ -474,6 +475,8 @@ def build_with_history(ctx, spec, mode, hseed, kw=None, prefer=None):
             r_ = rng.random()
             if c["kind"] == "Source":
                 continue
+            if rekind:
+                r_ = 0.0  # every picked component is another KIND (same name) while the system is analysed / drawn
             if r_ < 0.3:
                 # ... or a different component altogether (another operating point before the replacement)
                 if c["kind"] in S.LOADS:
